@@ -8,6 +8,7 @@
 (*            classes, the stored sample for the differentiable ones)                                         *)
 (*   C i j    f.oracle((x_i + x_j) / 2), i < j                                                                *)
 (*   G i      f.oracle(x_i - g_i / 2)       (a gradient / forward step from sample i)                         *)
+(*   D i      f.oracle(2 * x_i)             (a combination of evaluated points whose weights do not sum to 1)  *)
 (*   B i j    f.oracle(x_i - get_block(g_i, j) / 2)   (a block-coordinate step; only if NBlocks > 1)          *)
 (*   T        f.T.oracle(u), u a fresh leaf point          (adjoint of a LinearOperator; only if HasT)        *)
 (*   U i      f.T.oracle(g_i)                              (A^T A x_i; only if HasT)                          *)
@@ -24,6 +25,7 @@ Cand(h) ==
        {Ev("O", 0, 0), Ev("S", 0, 0), Ev("X", 0, 0)}
   \cup {Ev("R", i, 0) : i \in Prim(h)}
   \cup {Ev("G", i, 0) : i \in Prim(h)}
+  \cup {Ev("D", i, 0) : i \in Prim(h)}
   \cup {Ev("C", q[1], q[2]) : q \in {w \in Prim(h) \X Prim(h) : w[1] < w[2]}}
   \cup (IF NBlocks > 1 THEN {Ev("B", i, j) : i \in Prim(h), j \in 0..(NBlocks - 1)} ELSE {})
   \cup (IF HasT THEN {Ev("T", 0, 0)} \cup {Ev("U", i, 0) : i \in Prim(h)} \cup {Ev("W", i, 0) : i \in Adj(h)} ELSE {})
@@ -34,7 +36,7 @@ Spec == Init /\ [][Next]_hist
 WellFormed == \A k \in 1..Len(hist) :
    LET ev == hist[k] IN
    /\ ev.e \in {"O", "S", "X", "T"} => ev.i = 0 /\ ev.j = 0
-   /\ ev.e \in {"R", "G", "U", "B"} => ev.i \in 1..(k - 1) /\ ~IsAdj(hist[ev.i])
+   /\ ev.e \in {"R", "G", "U", "B", "D"} => ev.i \in 1..(k - 1) /\ ~IsAdj(hist[ev.i])
    /\ ev.e = "C" => ev.i \in 1..(k - 1) /\ ev.j \in (ev.i + 1)..(k - 1) /\ ~IsAdj(hist[ev.i]) /\ ~IsAdj(hist[ev.j])
    /\ ev.e = "W" => ev.i \in 1..(k - 1) /\ IsAdj(hist[ev.i])
    /\ ev.e = "B" => ev.j \in 0..(NBlocks - 1)
